@@ -97,6 +97,12 @@ Definition c07_br_quiet_means_waiting (c : case) : bool :=
   if negb (bo_panic o) && negb (bo_gone o) && bo_finalizer o && negb (bo_err o) && negb (bo_requeue o) &&
      status_eqb st (bo_status o) && wl_eqb w (bo_workload o)
   then waits_br sp st w else true.
+(* stronger: the controller's watch ignores its own status updates (unless the object is deleting), so a reconcile without
+   error and requeue must have written the workload or leave a state in which it has nothing to do *)
+Definition c07_br_no_self_wake_means_settled (c : case) : bool :=
+  let '(sp, st, w, o) := c in
+  if negb (bo_panic o) && negb (bo_gone o) && bo_finalizer o && negb (bo_err o) && negb (bo_requeue o) && negb (sp_deleting sp)
+  then negb (wl_eqb w (bo_workload o)) || waits_br sp (bo_status o) (bo_workload o) else true.
 
 Definition judge (c : case) : list verdict :=
   if negb (in_domain c) then [] else
@@ -116,7 +122,8 @@ Definition judge (c : case) : list verdict :=
      clause "C11_never_beyond_partition" (never_beyond_partition sp st o);
      clause "C11_completed_means_released" (completed_means_released sp st w o);
      clause "C11_falls_back" (falls_back sp st w o);
-     clause "C07_quiet_batchrelease_reconcile_is_waiting_for_someone" (c07_br_quiet_means_waiting c) ]).
+     clause "C07_quiet_batchrelease_reconcile_is_waiting_for_someone" (c07_br_quiet_means_waiting c);
+     clause "C07_batchrelease_without_requeue_has_nothing_left_to_do" (c07_br_no_self_wake_means_settled c) ]).
 
 Definition tag (c : case) : string :=
   let '(sp, st, w, o) := c in
